@@ -125,7 +125,11 @@ def run(repo):
                 sp = stored_params(repo, k2)
                 res.functions.add(fi.fq)
                 for p, field in sorted(sp.items()):
-                    if p in explicit:
+                    const_bound = p in explicit and isinstance(env.get(p), ast.Constant) and \
+                        (ci.fq, name) not in EXEMPT_METHOD and field in _own_fields(repo, ci)
+                    if const_bound:
+                        ok = False
+                    elif p in explicit:
                         ok = True
                     elif (k2.fq, p) in EXEMPT_PARAM or (ci.fq, name) in EXEMPT_METHOD or \
                             (ci.fq, '%s@%s' % (p, name)) in EXEMPT_PARAM:
@@ -134,7 +138,12 @@ def run(repo):
                         ok = False
                     res.inst({'method': fi.fq, 'rebuilds': k2.name, 'param': p,
                               'bound': p in explicit, 'ok': ok}, ok)
-                    if not ok:
+                    if not ok and const_bound:
+                        res.fail(Finding(RULE, fi.fq, '%s(...): %s = constant' % (k2.name, p),
+                                         '%s rebuilds %s from self with `%s` fixed to the constant %s '
+                                         'instead of self.%s' % (fi.fq, k2.name, p, ntext(env[p]), field),
+                                         repo.where(fi, call), {'props': _props(ci, p)}))
+                    elif not ok:
                         res.fail(Finding(RULE, fi.fq, '%s(...): %s not passed' % (k2.name, p),
                                          '%s returns %s(...) built from self without passing `%s` '
                                          '(stored as self.%s): the result falls back to the default '
@@ -219,6 +228,13 @@ def run(repo):
                                              % (ci.fq, t.attr, t.attr), repo.where(init, n),
                                              {'props': ['C06', 'C12']}))
     return res
+
+
+def _own_fields(repo, ci):
+    out = set()
+    for c in repo.mro(ci):
+        out |= set(stored_params(repo, c).values())
+    return out
 
 
 def _props(ci, p):
